@@ -503,8 +503,24 @@ pub fn sweep<F>(ctx: &Ctx, name: &str, total: u64, note: &str, f: F)
 where
     F: Fn(u64, &mut Local) + Sync,
 {
+    sweep_workers(ctx, ctx.workers, name, total, note, f)
+}
+
+/// single-worker variant: points are evaluated strictly in index order on one thread (used for
+/// call-sequence spaces, where what ran before a call is part of the state)
+pub fn sweep_seq<F>(ctx: &Ctx, name: &str, total: u64, note: &str, f: F)
+where
+    F: Fn(u64, &mut Local) + Sync,
+{
+    sweep_workers(ctx, 1, name, total, note, f)
+}
+
+fn sweep_workers<F>(ctx: &Ctx, max_workers: usize, name: &str, total: u64, note: &str, f: F)
+where
+    F: Fn(u64, &mut Local) + Sync,
+{
     let t_start = std::time::Instant::now();
-    let workers = (ctx.workers as u64).min(total.max(1)) as usize;
+    let workers = (max_workers as u64).min(total.max(1)) as usize;
     let chunk = total.div_ceil(workers as u64);
     let mut locals: Vec<Local> = Vec::new();
     std::thread::scope(|s| {
@@ -590,4 +606,39 @@ pub fn unrank(mut idx: u64, radices: &[u64], out: &mut [u64]) {
 
 pub fn product(radices: &[u64]) -> u64 {
     radices.iter().product()
+}
+
+/// Call-sequence space: for every ordered pair (a, b) of `items`, call a and then b on one thread;
+/// the outcome of b must be the same whatever ran before it (no state carried across calls).
+/// The reference outcome of b is the one observed right after item 0.
+pub fn pair_histories(ctx: &Ctx, prop: &str, name: &str, note: &str, items: &[(String, Box<dyn Fn() -> String + Sync>)]) {
+    let n = items.len() as u64;
+    if n < 2 {
+        return;
+    }
+    let run = |i: usize| -> String {
+        match guard(|| (items[i].1)()) {
+            Ok(s) => s,
+            Err(p) => format!("PANIC {}", p),
+        }
+    };
+    let mut baseline: Vec<String> = Vec::with_capacity(items.len());
+    for b in 0..items.len() {
+        let _ = run(0);
+        baseline.push(run(b));
+    }
+    let base = &baseline;
+    let prop = prop.to_string();
+    sweep_seq(ctx, name, n * n, note, move |idx, l| {
+        let a = (idx / n) as usize;
+        let b = (idx % n) as usize;
+        l.nontrivial += 1;
+        let _ = run(a);
+        let got = run(b);
+        l.bump("call pair");
+        if got != base[b] {
+            let v = Verdict::fail(format!("{}|result-depends-on-previous-call", prop), format!("{} (as after {})", base[b], items[0].0), format!("{} after {}", got, items[a].0));
+            l.fail(ctx, idx, v, || serde_json::json!({"kind": "call-pair", "first": items[a].0, "second": items[b].0, "note": "re-run the check to replay: the outcome depends on process history"}));
+        }
+    });
 }
